@@ -96,6 +96,18 @@ TNoop ==
   /\ fails' = fails /\ verdict' = Conclude(fails)
   /\ UNCHANGED <<S, cfg, calls, stm, acc, requeue, route, lrnOf, sels, lrns, nsel, selOf, bgprio, gone, nonconf, stats, insync, wlast, clock>>
 
+\* A scripted history could not be continued as written, because the real
+\* code was in another state than the script assumes (e.g. the worker that
+\* was to report a completion had not been given a task).  That is a
+\* deviation from the expected behaviour, not by itself a property failure:
+\* it is counted, the history ends with the ordinary drain phase, and the
+\* predicates judge what was observed.
+TScriptAbort ==
+  /\ IsEvent("script_abort")
+  /\ fails' = fails /\ verdict' = Conclude(fails)
+  /\ nonconf' = nonconf + 1
+  /\ UNCHANGED <<S, cfg, calls, stm, acc, requeue, route, lrnOf, sels, lrns, nsel, selOf, bgprio, gone, stats, insync, wlast, clock>>
+
 TAdvance ==
   /\ IsEvent("advance")
   /\ clock' = Line.clock
@@ -969,7 +981,7 @@ TPanic ==
   /\ verdict' = Conclude(fails')
   /\ UNCHANGED <<S, cfg, calls, stm, acc, requeue, route, lrnOf, sels, lrns, nsel, selOf, bgprio, gone, nonconf, stats, insync, wlast, clock>>
 
-TNext == TDesign \/ TListing \/ TPanic \/ TReset \/ TConfig \/ TPredeclare \/ TNoop \/ TAdvance \/ TCancel \/ TCall \/ TSend \/ TRet \/ TSec \/ TQuiescent \/ TFinal
+TNext == TScriptAbort \/ TDesign \/ TListing \/ TPanic \/ TReset \/ TConfig \/ TPredeclare \/ TNoop \/ TAdvance \/ TCancel \/ TCall \/ TSend \/ TRet \/ TSec \/ TQuiescent \/ TFinal
 
 TraceSpec == TInit /\ [][TNext]_tvars
 
